@@ -90,8 +90,8 @@ fn mk_state_at(mode: u8, completed: bool, fixed: Option<(usize, usize)>) -> (Con
     let bytes: [u8; 4] = kani::any();
     let mut unread = 0usize;
     if mode == 0 {
-        // boundary combinations of (cursor, pending_len): first byte, one-byte chunk, short chunk, end of page
-        let (cur, pend): (usize, usize) = if let Some(f) = fixed { f } else { match kani::any::<u8>() % 6 { 0 => (0, 1), 1 => (0, 9), 2 => (7, 8), 3 => (4090, 4096), 4 => (4095, 4096), _ => (100, 103) } };
+        // 1..=6 unread bytes, ending at the start of the page, in the middle, or at the very end of the page
+        let (cur, pend): (usize, usize) = if let Some(f) = fixed { f } else { { let u: usize = kani::any(); kani::assume(u >= 1 && u <= 6); let pend = match kani::any::<u8>() % 3 { 0 => u, 1 => 100, _ => 4096 }; (pend - u, pend) } };
         con.cursor = cur;
         con.pending_len = pend;
         let mut i = 0;
